@@ -38,6 +38,15 @@ def _mode_of(fv, node: int) -> Optional[str]:
     return None
 
 
+def _append_target(t: ast.AST):
+    """Normalise the receiver of `<x>.append(..)`:  D[key][i]  or  §unpack(D[key], i)  ->  (key term, component i)."""
+    if isinstance(t, ast.Subscript) and isinstance(t.slice, ast.Constant) and isinstance(t.value, ast.Subscript):
+        return t.value.slice, t.slice.value
+    if is_sym(t, "unpack") and isinstance(t.args[0], ast.Subscript) and isinstance(t.args[1], ast.Constant):
+        return t.args[0].slice, t.args[1].value
+    return None
+
+
 def grouping(ctx) -> None:
     rule = "C18.group-integrity"
     f = ctx.prog.require_func("partition_by_column", rule)
@@ -58,44 +67,66 @@ def grouping(ctx) -> None:
         if cs.node in body and isinstance(cs.call.func, ast.Attribute) and cs.call.func.attr == "append":
             apps.append(cs)
     comps = {}
-    keys = set()
+    keys = {}
+    key_raw = None
     for cs in apps:
         tgt = fv.res.resolve(cs.call.func.value, cs.node)
         arg = fv.res.resolve(cs.call.args[0], cs.node) if cs.call.args else None
-        if not (isinstance(tgt, ast.Subscript) and isinstance(tgt.slice, ast.Constant) and isinstance(tgt.value, ast.Subscript)):
+        nt = _append_target(tgt)
+        if nt is None:
             ctx.rep.inconclusive(rule, f"{f.qualname}/append", f"unrecognised append target `{show(tgt)[:60]}`", where=f.where(cs.call))
             continue
-        comp = tgt.slice.value
-        keys.add(key(tgt.value.slice))
+        kterm, comp = nt
+        keys[key(kterm)] = kterm
         ep = elem_parts(arg) if arg is not None else None
         want = ["sources", "destinations", "volumes"][comp] if comp in (0, 1, 2) else None
         ok = ep is not None and ep[0] == loopid and is_name(strip_norm(ep[1]), want)
         comps[comp] = comps.get(comp, 0) + 1
         ctx.rep.check(ok, rule, f"{f.qualname}/append[{comp}]", f"component {comp} receives the {want} element of this triple",
                       f"component {comp} of the group receives `{show(arg)[:50] if arg is not None else None}` instead of the {want} element of the same triple: triples are torn apart", where=f.where(cs.call))
-        cond = fv.controlling(cs.node, within=body, skip_raising=True)
+        cond = fv.atoms_at(cs.node, within=body, skip_raising=True) + fv.compound_conditions_at(cs.node, within=body, skip_raising=True)
+        # the mode dispatch itself is not a filter: it only selects the key
+        cond = [c for c in cond if not (isinstance(c[0], ast.Compare) and is_name(c[0].left, _pb()))]
         ctx.rep.check(not cond, rule, f"{f.qualname}/append[{comp}]/unconditional", "append is unconditional",
-                      f"the append is skipped depending on `{stmt_key(fv.cfg.nodes[cond[0][0]].ast)[:50] if cond else ''}`: triples are dropped (multiset not preserved)", where=f.where(cs.call))
+                      f"the append is skipped depending on `{show(cond[0][0])[:50] if cond else ''}`: triples are dropped (multiset not preserved)", where=f.where(cs.call))
     ctx.rep.check(comps == {0: 1, 1: 1, 2: 1}, rule, f"{f.qualname}/three-appends", "exactly one append per component and iteration", f"appends per component: {comps}", where=f.where(g.ast))
     ctx.rep.check(len(keys) == 1, rule, f"{f.qualname}/same-key", "the three appends use the same group key", "the three appends of one iteration go to different groups", where=f.where(g.ast))
-    exits = [n for n in (fv.cfg.nodes[i] for i in body) if n.kind == "stmt" and isinstance(n.ast, (ast.Break, ast.Continue, ast.Return))]
-    ctx.rep.check(not exits, rule, f"{f.qualname}/no-skip", "no break/continue in the grouping loop", "a triple can be skipped (break/continue in the grouping loop)", where=f.where(g.ast))
-    # group key per mode: column suffix of the partitioning side
-    assigns = [n for n in (fv.cfg.nodes[i] for i in body) if n.kind == "stmt" and isinstance(n.ast, ast.Assign) and isinstance(n.ast.targets[0], ast.Name)]
+    exits = [n for n in (fv.cfg.nodes[i] for i in body) if n.kind == "stmt" and isinstance(n.ast, (ast.Break, ast.Return))]
+    early_continue = [n for n in (fv.cfg.nodes[i] for i in body) if n.kind == "stmt" and isinstance(n.ast, ast.Continue) and apps and not all(fv.cfg.dominates(cs.node, n.id) for cs in apps)]
+    ctx.rep.check(not exits and not early_continue, rule, f"{f.qualname}/no-skip", "no break/return/early continue in the grouping loop", "a triple can be skipped (break/continue in the grouping loop)", where=f.where(g.ast))
+    # group key per mode: column suffix of the partitioning side.  The key expression as written at the first append:
     seen = {}
-    for n in assigns:
-        mode = _mode_of(fv, n.id)
-        v = fv.res.resolve(n.ast.value, n.id)
-        if mode in ("source", "destination") and isinstance(v, ast.Subscript) and isinstance(v.slice, ast.Slice):
-            ep = elem_parts(v.value)
-            want = "sources" if mode == "source" else "destinations"
-            sl = v.slice
-            ok = ep is not None and ep[0] == loopid and is_name(strip_norm(ep[1]), want) and isinstance(sl.lower, ast.Constant) and sl.lower.value == 1 and sl.upper is None
-            seen[mode] = ok
-            ctx.rep.check(ok, rule, f"{f.qualname}/key[{mode}]", f"group key = column suffix of the {mode} well", f"under partition_by={mode!r} the group key is `{show(v)[:50]}`", where=f.where(n.ast))
+    if apps and len(keys) == 1:
+        cs = apps[0]
+        raw_t = cs.call.func.value
+        # find the raw key expression: D[<key>][i]  or the unpacked  a, b, c = D[<key>]
+        raw_key = None
+        if isinstance(raw_t, ast.Subscript) and isinstance(raw_t.value, ast.Subscript):
+            raw_key, at = raw_t.value.slice, cs.node
+        elif isinstance(raw_t, ast.Name):
+            for d in fv.cfg.reaching()[cs.node].get(raw_t.id, ()):
+                dn = fv.cfg.nodes[d]
+                if dn.kind == "stmt" and isinstance(dn.ast, ast.Assign) and isinstance(dn.ast.value, ast.Subscript):
+                    raw_key, at = dn.ast.value.slice, d
+        if raw_key is not None:
+            for conds, val in fv.alternatives(raw_key, at):
+                mode = None
+                for r, pol in conds:
+                    if isinstance(r, ast.Compare) and len(r.ops) == 1 and isinstance(r.ops[0], ast.Eq) and pol and is_name(r.left, _pb()) and isinstance(r.comparators[0], ast.Constant):
+                        mode = r.comparators[0].value
+                if mode not in ("source", "destination"):
+                    continue
+                want = "sources" if mode == "source" else "destinations"
+                ok = False
+                if isinstance(val, ast.Subscript) and isinstance(val.slice, ast.Slice):
+                    ep = elem_parts(val.value)
+                    sl = val.slice
+                    ok = ep is not None and ep[0] == loopid and is_name(strip_norm(ep[1]), want) and isinstance(sl.lower, ast.Constant) and sl.lower.value == 1 and sl.upper is None and sl.step is None
+                seen[mode] = ok
+                ctx.rep.check(ok, rule, f"{f.qualname}/key[{mode}]", f"group key = column suffix of the {mode} well", f"under partition_by={mode!r} the group key is `{show(val)[:50]}`", where=f.where(cs.call))
     for mode in ("source", "destination"):
         if mode not in seen:
-            ctx.rep.inconclusive(rule, f"{f.qualname}/key[{mode}]", "group key assignment not found")
+            ctx.rep.inconclusive(rule, f"{f.qualname}/key[{mode}]", "group key per mode could not be determined")
     _mode_raises(ctx, rule.replace("group-integrity", "mode"), fv, f, body, "grouping")
     # groups in sorted key order
     ok_order = False
@@ -112,12 +143,16 @@ def grouping(ctx) -> None:
 
 
 def _mode_raises(ctx, rule, fv, f, body, what) -> None:
+    """Inside the loop an unknown mode must end in raise ValueError (locally or in a new helper called there)."""
+    from ..guards import raising_terms
+
     ok = False
-    for n, test, pol, r in fv.raising_guards():
-        if n.id in body and not pol:
-            rt = fv.res.resolve(test, n.id)
-            if isinstance(rt, ast.Compare) and is_name(rt.left, _pb()) and raise_class(fv, r)[0] == "ValueError":
-                ok = True
+    for term, n, cls in raising_terms(fv, None):
+        nid = getattr(n, "id", None)
+        if nid not in body or cls != "ValueError":
+            continue
+        if any(isinstance(a.expr, ast.Compare) and is_name(a.expr.left, _pb()) for a in term):
+            ok = True
     ctx.rep.check(ok, rule, f"{f.qualname}/{what}-else-raises", "any other mode name raises ValueError", f"an unknown partition_by value is not rejected with ValueError in the {what} loop", where=f.where())
 
 
@@ -125,78 +160,100 @@ def sorting(ctx) -> None:
     rule = "C18.one-permutation"
     f = ctx.prog.require_func("partition_by_column", rule)
     fv = ctx.fv(f)
+    # the loop over the column groups: `for [c,] (srcs, dsts, vols) in [enumerate(]groups[)]`
     target = None
     for lp in [n for n in fv.cfg.nodes if n.kind == "for"]:
-        it = lp.ast.iter
-        if isinstance(it, ast.Call) and call_fname(it) == "enumerate" and it.args and isinstance(it.args[0], ast.Name) and isinstance(lp.ast.target, ast.Tuple) and len(lp.ast.target.elts) == 2 \
-                and isinstance(lp.ast.target.elts[1], ast.Tuple) and len(lp.ast.target.elts[1].elts) == 3:
-            target = lp
+        t = lp.ast.target
+        trip = t.elts[1] if isinstance(t, ast.Tuple) and len(t.elts) == 2 and isinstance(t.elts[1], ast.Tuple) else t
+        if isinstance(trip, ast.Tuple) and len(trip.elts) == 3 and all(isinstance(e, ast.Name) for e in trip.elts):
+            it = lp.ast.iter
+            src = it.args[0] if isinstance(it, ast.Call) and call_fname(it) == "enumerate" and it.args else it
+            if isinstance(src, ast.Name):
+                target = (lp, src.id, trip)
     if target is None:
-        ctx.rep.refuted(rule, f"{f.qualname}/sorting-loop", "no loop `for c, (srcs, dsts, vols) in enumerate(column_groups)`: rows within a column are not sorted", where=f.where())
+        ctx.rep.refuted(rule, f"{f.qualname}/sorting-loop", "no loop over the column groups that unpacks (sources, destinations, volumes): rows within a column are not sorted", where=f.where())
         return
-    groups_name = target.ast.iter.args[0].id
-    cname = target.ast.target.elts[0].id
-    names = [e.id for e in target.ast.target.elts[1].elts]
-    body = fv.cfg.loop_body[target.id]
-    ctx.rep.check(not fv.cfg.loop_has_break.get(target.id), rule, f"{f.qualname}/all-groups", "every group is sorted", "the sorting loop can stop early", where=f.where(target.ast))
-    stores = [n for n in (fv.cfg.nodes[i] for i in body) if n.kind == "stmt" and isinstance(n.ast, ast.Assign) and isinstance(n.ast.targets[0], ast.Subscript) and is_name(n.ast.targets[0].value, groups_name)]
-    if len(stores) != 1:
-        ctx.rep.check(None if not stores else False, rule, f"{f.qualname}/store", "", f"expected one store column_groups[c] = (...), found {len(stores)}", where=f.where(target.ast))
+    lp, groups_name, trip = target
+    names = [e.id for e in trip.elts]
+    body = fv.cfg.loop_body[lp.id]
+    ctx.rep.check(not fv.cfg.loop_has_break.get(lp.id), rule, f"{f.qualname}/all-groups", "every group is sorted", "the sorting loop can stop early", where=f.where(lp.ast))
+    # where does the sorted triple go?  in place (groups[c] = ...) or into a new list (result.append(...))
+    sinks = []
+    for n in (fv.cfg.nodes[i] for i in body):
+        if n.kind == "stmt" and isinstance(n.ast, ast.Assign) and isinstance(n.ast.targets[0], ast.Subscript) and is_name(n.ast.targets[0].value, groups_name):
+            sinks.append(("store", n, n.ast.value, groups_name))
+    for cs in fv.calls():
+        if cs.node in body and isinstance(cs.call.func, ast.Attribute) and cs.call.func.attr == "append" and isinstance(cs.call.func.value, ast.Name) and cs.call.args:
+            sinks.append(("append", fv.cfg.nodes[cs.node], cs.call.args[0], cs.call.func.value.id))
+    if len(sinks) != 1:
+        ctx.rep.check(None if not sinks else False, rule, f"{f.qualname}/store", "", f"expected the sorted group to be stored exactly once per group, found {len(sinks)} stores", where=f.where(lp.ast))
         return
-    st = stores[0]
+    how, st, val_raw, result_name = sinks[0]
     w = f.where(st.ast)
-    ok_idx = is_name(st.ast.targets[0].slice, cname) and not fv.controlling(st.id, within=body, skip_raising=True)
-    ctx.rep.check(ok_idx, rule, f"{f.qualname}/store-index", "the sorted group replaces the group it was computed from, unconditionally", "the sorted group is stored under another index or only conditionally", where=w)
-    val = st.ast.value
-    if not (isinstance(val, ast.Tuple) and len(val.elts) == 3):
+    uncond = not fv.atoms_at(st.id, within=body, skip_raising=True) or all(isinstance(c[0], ast.Compare) and is_name(c[0].left, _pb()) for c in fv.atoms_at(st.id, within=body, skip_raising=True))
+    ok_idx = uncond
+    if how == "store":
+        cname = lp.ast.target.elts[0].id if isinstance(lp.ast.target, ast.Tuple) and isinstance(lp.ast.target.elts[0], ast.Name) else None
+        ok_idx = ok_idx and is_name(st.ast.targets[0].slice, cname)
+    ctx.rep.check(ok_idx, rule, f"{f.qualname}/store-index", "the sorted group is stored for the group it was computed from, unconditionally", "the sorted group is stored under another index or only conditionally", where=w)
+    val_raw, vat = fv.def_expr(val_raw, st.id)
+    if not (isinstance(val_raw, ast.Tuple) and len(val_raw.elts) == 3):
         ctx.rep.refuted(rule, f"{f.qualname}/triple", "the sorted group is not a (sources, destinations, volumes) triple", where=w)
         return
     perms = []
-    for i, e in enumerate(val.elts):
-        t = fv.res.resolve(e, st.id)
-        inner = t
-        while isinstance(inner, ast.Call) and call_fname(inner) in ("list", "tuple") and inner.args:
-            inner = inner.args[0]
-        ok = False
+    for i, e in enumerate(val_raw.elts):
+        raw_base = e
+        while isinstance(raw_base, ast.Call) and raw_base.args and call_fname(raw_base) in ("list", "tuple", "array", "asarray"):
+            raw_base = raw_base.args[0]
         perm = None
-        if isinstance(inner, ast.Subscript):
-            base = strip_norm(inner.value)
-            perm = inner.slice
-            ok = is_sym(base, "item") or is_sym(base, "elem") or True
-            # base must be the i-th list of the group of this iteration
-            raw_base = e
-            while isinstance(raw_base, ast.Call) and raw_base.args:
-                raw_base = raw_base.args[0]
-            raw_inner = raw_base.value if isinstance(raw_base, ast.Subscript) else None
-            while isinstance(raw_inner, ast.Call) and raw_inner.args:
+        ok = False
+        if isinstance(raw_base, ast.Subscript):
+            perm = fv.res.resolve(raw_base.slice, vat)
+            raw_inner = raw_base.value
+            while isinstance(raw_inner, ast.Call) and raw_inner.args and call_fname(raw_inner) in ("list", "tuple", "array", "asarray"):
                 raw_inner = raw_inner.args[0]
             ok = isinstance(raw_inner, ast.Name) and raw_inner.id == names[i]
         ctx.rep.check(ok, rule, f"{f.qualname}/component[{i}]", f"component {i} is `{names[i]}` re-indexed",
-                      f"component {i} of the sorted group is `{show(t)[:60]}`: not the {names[i]} list of this group under the permutation", where=w)
+                      f"component {i} of the sorted group is `{show(e)[:60]}`: not the {names[i]} list of this group under the permutation", where=w)
         perms.append(key(perm) if perm is not None else f"?{i}")
     ctx.rep.check(len(set(perms)) == 1, rule, f"{f.qualname}/same-permutation", "one index vector permutes all three lists",
                   "the three lists of a group are permuted by different index vectors: sources, destinations and volumes are re-paired", where=w)
     # the permutation is argsort of the partitioning side per mode
-    orders = [n for n in (fv.cfg.nodes[i] for i in body) if n.kind == "stmt" and isinstance(n.ast, ast.Assign) and isinstance(n.ast.value, ast.Call) and call_fname(n.ast.value) in ("argsort", "lexsort", "sorted")]
+    first = val_raw.elts[0]
+    fb = first
+    while isinstance(fb, ast.Call) and fb.args and call_fname(fb) in ("list", "tuple", "array", "asarray"):
+        fb = fb.args[0]
     seen = {}
-    for n in orders:
-        mode = _mode_of(fv, n.id)
-        a0 = n.ast.value.args[0] if n.ast.value.args else None
-        want = names[0] if mode == "source" else names[1] if mode == "destination" else None
-        ok = want is not None and call_fname(n.ast.value) == "argsort" and is_name(a0, want) and not [k for k in n.ast.value.keywords if k.arg not in ("kind", "stable")]
-        seen[mode] = ok
-        ctx.rep.check(ok, rule, f"{f.qualname}/argsort[{mode}]", f"rows ordered by argsort of the {mode} wells",
-                      f"under partition_by={mode!r} the row order is `{stmt_key(n.ast)[:60]}`: not argsort of the {mode} wells of the group", where=f.where(n.ast))
+    if isinstance(fb, ast.Subscript):
+        for conds, val in fv.alternatives(fb.slice, vat):
+            mode = None
+            for r, pol in conds:
+                if isinstance(r, ast.Compare) and len(r.ops) == 1 and isinstance(r.ops[0], ast.Eq) and pol and is_name(r.left, _pb()) and isinstance(r.comparators[0], ast.Constant):
+                    mode = r.comparators[0].value
+            if mode not in ("source", "destination"):
+                continue
+            want = 0 if mode == "source" else 1
+            a0 = val.args[0] if isinstance(val, ast.Call) and val.args else None
+            tgt_term = fv.res.resolve(ast.Name(id=names[want], ctx=ast.Load()), vat)
+            ok = isinstance(val, ast.Call) and call_fname(val) == "argsort" and a0 is not None and key(a0) == key(tgt_term) and not [k for k in val.keywords if k.arg not in ("kind", "stable")]
+            seen[mode] = ok
+            ctx.rep.check(ok, rule, f"{f.qualname}/argsort[{mode}]", f"rows ordered by argsort of the {mode} wells",
+                          f"under partition_by={mode!r} the row order is `{show(val)[:60]}`: not argsort of the {mode} wells of the group", where=w)
     for mode in ("source", "destination"):
         if mode not in seen:
-            ctx.rep.inconclusive(rule, f"{f.qualname}/argsort[{mode}]", "argsort assignment not found")
+            ctx.rep.inconclusive(rule, f"{f.qualname}/argsort[{mode}]", "row order per mode could not be determined")
     _mode_raises(ctx, "C18.mode", fv, f, body, "sorting")
     # every return hands out the sorted structure
-    for n in fv.cfg.nodes:
-        if n.kind == "stmt" and isinstance(n.ast, ast.Return):
-            ok = is_name(fv.alias_root(n.ast.value, n.id), groups_name) and target.id in fv.cfg.completed_loops_at(n.id)
-            ctx.rep.check(ok, rule, f"{f.qualname}/return[{stmt_key(n.ast)[:30]}]", "returns the grouped and row-sorted structure",
-                          f"`{stmt_key(n.ast)[:70]}` returns something that did not pass the grouping and row-sorting loops (shortcut path)", where=f.where(n.ast))
+    for n in fv.return_nodes():
+        root = fv.alias_root(n.ast.value, n.id)
+        ok = is_name(root, result_name) and lp.id in fv.cfg.completed_loops_at(n.id)
+        ctx.rep.check(ok, rule, f"{f.qualname}/return[{stmt_key(n.ast)[:30]}]", "returns the grouped and row-sorted structure",
+                      f"`{stmt_key(n.ast)[:70]}` returns something that did not pass the grouping and row-sorting loops (shortcut path)", where=f.where(n.ast))
+    # the list that is iterated must be the groups in sorted key order (when a new list is filled)
+    if how == "append":
+        inits = [x for x in fv.cfg.nodes if x.kind == "stmt" and isinstance(x.ast, (ast.Assign, ast.AnnAssign)) and is_name(x.ast.targets[0] if isinstance(x.ast, ast.Assign) else x.ast.target, result_name)]
+        ok = len(inits) == 1 and isinstance(inits[0].ast.value, ast.List) and not inits[0].ast.value.elts and fv.cfg.dominates(inits[0].id, lp.id) and not fv.cfg.enclosing_loops(inits[0].id)
+        ctx.rep.check(ok, rule, f"{f.qualname}/result-init", "the result list starts empty before the loop", "the result list is not an empty list created once before the sorting loop", where=w)
 
 
 class _Unknown(Exception):
